@@ -347,3 +347,35 @@ pub proof fn lemma_wire_witness()
     let h3 = seq![1u8, 4, 0, 1, 0, 0, 0, 0];
     assert(h3.take(8) =~= h3);
 }
+
+/// C05 at the request-to-stream hand-off: whatever follows the preamble on the connection (the request's input streams,
+/// further requests) is left exactly as it is -- the run stops at the end of the empty Params record, the state is
+/// Done, and the unread bytes are exactly `rest`, however much look-ahead was already buffered.
+pub proof fn lemma_preamble_leaves_rest(b: Seq<u8>, bpad: Seq<u8>, recs: Seq<WRec>, term: WRec, id: u16, role: fcgi::Role, flags: u8, rest: Seq<u8>, mc: usize)
+    requires
+        is_begin(b, bpad, id, role, flags),
+        forall|i: int| 0 <= i < recs.len() ==> wrec_ok(id, #[trigger] recs[i]),
+        is_term_rec(id, term),
+    ensures
+        ({
+            let wire = (b + bpad) + (wire_all(recs) + wrec_wire(term));
+            let r = r_run(RAbs::Header, wire + rest, mc);
+            &&& r.st == (RAbs::Done { req: ReqAbs { id, role, flags, log: decode_pairs(payload_all(id, recs)) } }) // @C05,C01 reqwire.look_ahead_does_not_change_the_request
+            &&& r.consumed == wire.len() && (wire + rest).skip(r.consumed) == rest // @C05 reqwire.bytes_after_the_preamble_are_left_unread
+            &&& r.out == replies_all(id, recs, mc) && !r.partial // @C04,C05 reqwire.look_ahead_adds_no_reply
+        }),
+{
+    let e = Seq::<u8>::empty();
+    let wire = (b + bpad) + (wire_all(recs) + wrec_wire(term));
+    lemma_preamble(b, bpad, recs, term, id, role, flags, mc);
+    if rest.len() == 0 {
+        assert(wire + rest =~= wire);
+        assert(wire.skip(wire.len() as int) =~= rest);
+    } else {
+        lemma_rrun_split(RAbs::Header, wire, rest, mc);
+        assert(wire.skip(wire.len() as int) + rest =~= rest);
+        assert((wire + rest).skip(wire.len() as int) =~= rest);
+        let o = replies_all(id, recs, mc);
+        assert(o + e =~= o);
+    }
+}
